@@ -56,6 +56,44 @@ mutual
     | .cons e p => printElem st e ++ printPat st p
 end
 
+/-! ### the printer at token level (what the lexer makes of `printPat`, element by element) -/
+
+def tokVal (st : Style) : ArgVal → Tok
+  | .int i => .num (pyIntStr i)
+  | .bool b => .bool (if b then st.trueWord else st.falseWord)
+  | .str s => .str (st.quote s) (escStr (st.quote s) s)
+
+def tokArg (st : Style) (a : Option (List Char) × ArgVal) : List Tok :=
+  match a.1 with
+  | none => [tokVal st a.2]
+  | some k => if st.shorthand ∧ a.2 = .bool true then [.argName k] else [.argName k, .eq, tokVal st a.2]
+
+/-- arguments after the first one, each preceded by a separator, then ARGS_END -/
+def tokMoreArgs (st : Style) : List (Option (List Char) × ArgVal) → List Tok
+  | [] => [.argsEnd]
+  | a :: t => .sep :: (tokArg st a ++ tokMoreArgs st t)
+
+def tokArgList (st : Style) : List (Option (List Char) × ArgVal) → List Tok
+  | [] => [.argsEnd]
+  | a :: t => tokArg st a ++ tokMoreArgs st t
+
+def argsOf (args : List ArgVal) (kwargs : List (List Char × ArgVal)) : List (Option (List Char) × ArgVal) :=
+  args.map (fun v => (none, v)) ++ kwargs.map (fun kv => (some kv.1, kv.2))
+
+mutual
+  def tokElem (st : Style) : Elem → List Tok
+    | .raw s => [.text (escText s)]
+    | .tag cat name args kwargs ctx =>
+      .tagStart :: ((match cat with | some c => [.tagId c, .dot] | none => []) ++
+        .tagId name :: .argsStart :: (tokArgList st (argsOf args kwargs) ++
+        (match ctx with
+         | some p => .ctxStart :: (tokPat st p ++ [.ctxEnd])
+         | none => [])))
+  def tokPat (st : Style) : Pat → List Tok
+    | .nil => []
+    | .cons e p => tokElem st e ++ tokPat st p
+end
+
 /-- `X|%A(..)|%B(..)`: the pipe-list spelling of nested contexts; tags = innermost first -/
 def printPiped (st : Style) (x : Pat) (tags : List Elem) : List Char :=
   printPat st x ++ tags.flatMap (fun t =>
